@@ -1281,13 +1281,49 @@ def rule_merge(repo, col):
                     'remapping shape not recognised')
     # prefer_self
     p = repo.func('biom/util.py', 'prefer_self')
-    r = [n for n in body_walk(p) if isinstance(n, ast.Return)]
     params = param_names(p)
-    ok = len(r) == 1 and isinstance(r[0].value, ast.IfExp) and \
-        dotted(r[0].value.body) == params[0] and \
-        dotted(r[0].value.orelse) == params[1] and \
-        'is not None' in unparse(r[0].value.test) and \
-        params[0] in unparse(r[0].value.test)
+
+    def outcome(stmts, x_is_none):
+        """Which parameter prefer_self returns when x is / is not None."""
+        def truth(t):
+            if isinstance(t, ast.Compare) and len(t.ops) == 1 and \
+                    dotted(t.left) == params[0] and isinstance(
+                        t.comparators[0], ast.Constant) and \
+                    t.comparators[0].value is None:
+                if isinstance(t.ops[0], ast.Is):
+                    return x_is_none
+                if isinstance(t.ops[0], ast.IsNot):
+                    return not x_is_none
+            if isinstance(t, ast.UnaryOp) and isinstance(t.op, ast.Not):
+                v = truth(t.operand)
+                return None if v is None else not v
+            return None
+
+        def ev(e):
+            if isinstance(e, ast.IfExp):
+                v = truth(e.test)
+                if v is None:
+                    return None
+                return ev(e.body if v else e.orelse)
+            return dotted(e)
+        for st in stmts:
+            if isinstance(st, ast.Expr) and isinstance(st.value,
+                                                       ast.Constant):
+                continue
+            if isinstance(st, ast.Return):
+                return ev(st.value)
+            if isinstance(st, ast.If):
+                v = truth(st.test)
+                if v is None:
+                    return None
+                r_ = outcome(st.body if v else st.orelse, x_is_none)
+                if r_ is not None:
+                    return r_
+                continue
+            return None
+        return None
+    ok = len(params) == 2 and outcome(p.body, True) == params[1] and \
+        outcome(p.body, False) == params[0]
     col.check(ok, 'AG-MERGEKIND', 'biom/util.py', 'prefer_self', 'policy', p,
               'the receiver\'s metadata if it has any, otherwise the '
               'other\'s', 'default metadata policy changed')
@@ -1572,17 +1608,39 @@ def rule_to_sparse(repo, col):
     init = repo.func(TABLE, 'Table.__init__')
     c = [n for n in body_walk(init) if isinstance(n, ast.Call) and
          call_name(n) == 'Table._to_sparse']
-    ok = len(c) == 1 and dotted(kwarg(c[0], 'shape') or
-                                ast.Constant(None)) == 'shape'
-    shp = [n for n in body_walk(init) if isinstance(n, ast.Assign) and
-           dotted(n.targets[0]) == 'shape']
-    ok = ok and len(shp) == 1 and unparse(shp[0].value) == \
-        '(len(observation_ids), len(sample_ids))'
-    col.check(ok, 'AX-SHAPE', TABLE, 'Table.__init__', 'shape', shp[0]
-              if shp else init, 'shape = (len(observation_ids), '
-              'len(sample_ids)) is what sizes converted input',
-              'converted input is not sized by (len(observation_ids), '
-              'len(sample_ids))')
+    ias = local_assignments(init)
+
+    def res(e, depth=0):
+        if isinstance(e, ast.Name) and e.id in ias and depth < 4:
+            vals = ias[e.id]
+            if len(vals) == 1:
+                v, st = vals[0]
+                if v is not None:
+                    return res(v, depth + 1)
+                # n_obs, n_samp = len(a), len(b)
+                if isinstance(st, ast.Assign) and isinstance(
+                        st.targets[0], ast.Tuple) and isinstance(
+                        st.value, ast.Tuple):
+                    for t, x in zip(st.targets[0].elts, st.value.elts):
+                        if isinstance(t, ast.Name) and t.id == e.id:
+                            return res(x, depth + 1)
+        return e
+    dims = None
+    if len(c) == 1 and kwarg(c[0], 'shape') is not None:
+        sv = res(kwarg(c[0], 'shape'))
+        if isinstance(sv, ast.Tuple) and len(sv.elts) == 2:
+            dims = [unparse(res(x)) for x in sv.elts]
+    want = ['len(observation_ids)', 'len(sample_ids)']
+    if dims is None or set(dims) != set(want):
+        col.soft(False, 'AX-SHAPE', TABLE, 'Table.__init__', 'shape',
+                 c[0] if c else init, '', 'the shape handed to _to_sparse '
+                 'is not resolved to the two id-list lengths')
+    else:
+        col.check(dims == want, 'AX-SHAPE', TABLE, 'Table.__init__', 'shape',
+                  c[0], 'shape = (len(observation_ids), len(sample_ids)) is '
+                  'what sizes converted input',
+                  'converted input is sized by %s: rows must be '
+                  'observations, columns samples' % dims)
     fl = [n for n in body_walk(init) if isinstance(n, ast.Call) and
           isinstance(n.func, ast.Attribute) and n.func.attr == 'astype' and
           n.args and dotted(n.args[0]) in ('float', 'np.float64')]
